@@ -9,6 +9,12 @@ COMMON_NOTE = ("Trusted: Coq 8.16.1 kernel and its VM (vm_compute; no native_com
                "(virtual clock, scheduler, canonicalisation, case printer). ")
 # id -> (text, note, technique, design_ref)
 CLAIMED = {
+ "C13": ("Theorems: for every pattern and key (all characters) the matcher Memory.scan builds (re.escape, '\\*' -> '.*', compile, fullmatch) always "
+         "compiles and equals the glob matcher; scan/delete_match select exactly the matching live keys; inside a transaction the selection equals the glob "
+         "filter of the merged view for every split of keys between overlay, store and pending deletes. Real scan/get_match/delete_match/@invalidate, "
+         "outside and inside transactions, are compared with the model on generated key sets and patterns on every run.",
+         "Python's re is modelled for the fragment {escaped literal, plain literal, '.*'} with DOTALL; re.escape's table is transcribed; lock keys filtered from transaction observations.",
+         "Coq proof (string-level induction: escape/rewrite/parse/match = glob) + differential correspondence", "3/C13"),
  "C11": ("Theorems for every history: the store never exceeds its capacity; its key order is exactly the recency list obtained by replaying the "
          "history's Touch/Drop/Evict trace; whenever an Evict fires the evicted key carries the oldest touch stamp and at least `size` other distinct "
          "keys carry newer ones; a purge pass keeps the survivors' order. The model's results and raw key order are compared with the real Memory after every command.",
